@@ -26,6 +26,8 @@ META = {
     'trusted_base': ['sa/specs/ssh.json', 'sa.interp/layout/canon/compare/spec'],
     'exhaustive': True,
 }
+
+META['explanation'] += ' ' + 'R9: explicit rejections against the reviewed table. R10: certificate validity bounds through the shared timestamp primitives. Spec items of the messages name the attribute they carry (consistent swaps on both sides are findings).'
 MODULES = {'cryptoparser.ssh.record', 'cryptoparser.ssh.subprotocol', 'cryptoparser.ssh.key'}
 HERE = os.path.dirname(os.path.dirname(os.path.abspath(__file__)))
 
